@@ -101,7 +101,7 @@ def recvViaReceiver (c : Cfg) : Nat → St → RecvRes × St
       else if regressPanics then (.panic, q.2)       -- on the receiver goroutine
       else (.got x, q.2)
     | some .other => recvViaReceiver c fuel q.2
-    | some (.fail _) => (.err, q.2)
+    | some (.fail _) => (.err, { q.2 with connected := false })   -- the receiver gives up and closes the transport
     | some (.sesGone _) => (.err, q.2)             -- not produced by `nextItem`
 
 /-- `channel.receiveSession` -/
